@@ -130,6 +130,54 @@ fn shuffle2_h<const N: usize>() {
 harness!(name=c19_shuffle2_1, prop=C19, mode=U, kind=normal, tier=quick, unwind=79, { shuffle2_h::<1>() });
 harness!(name=c19_shuffle2_2, prop=C19, mode=U, kind=normal, tier=thorough, unwind=81, { shuffle2_h::<2>() });
 harness!(name=c19_shuffle2_3, prop=C19, mode=U, kind=normal, tier=thorough, unwind=83, { shuffle2_h::<3>() });
+// ---- the same two clauses stated as "some permutation maps the input onto the output" (a disjunction over the N!
+// permutations, each a conjunction of N bit-equalities): equivalent to the multiset formulation and cheaper to decide
+// @bound c19_perm_: data length N = 2, 3 (instance), opaque data incl. repeated values (U), every RNG stream
+// @claim c19_perm_: shuffle's output is the image of its input under one of the N! permutations; shuffle_two's outputs are the images of both inputs under one common permutation (U)
+// @modes c19_perm_: U
+// @cap c19_perm_: 150
+const P2: [[usize; 2]; 2] = [[0, 1], [1, 0]];
+const P3: [[usize; 3]; 6] = [[0, 1, 2], [0, 2, 1], [1, 0, 2], [1, 2, 0], [2, 0, 1], [2, 1, 0]];
+fn image_of<const N: usize>(out: &[f64], inp: &[f64; N], p: &[usize; N]) -> bool {
+    let mut ok = true;
+    let mut i = 0;
+    while i < N {
+        ok = ok & same(out[i], inp[p[i]]);
+        i += 1;
+    }
+    ok
+}
+fn perm1<const N: usize, const M: usize>(perms: &[[usize; N]; M]) {
+    let d: [f64; N] = inp::arr(0);
+    alea::shim_set_cursor(0);
+    let s = shuffle(&d);
+    vassert!(s.len() == N, "shuffle changed the length to {}", s.len());
+    let mut any = false;
+    let mut k = 0;
+    while k < M {
+        any = any | image_of(&s, &d, &perms[k]);
+        k += 1;
+    }
+    vassert!(any, "shuffle's output is not a permutation of its input");
+}
+fn perm2<const N: usize, const M: usize>(perms: &[[usize; N]; M]) {
+    let a: [f64; N] = inp::arr(0);
+    let b: [f64; N] = inp::arr(100);
+    alea::shim_set_cursor(0);
+    let (sa, sb) = shuffle_two(&a, &b);
+    vassert!(sa.len() == N && sb.len() == N, "shuffle_two changed a length");
+    let mut any = false;
+    let mut k = 0;
+    while k < M {
+        any = any | (image_of(&sa, &a, &perms[k]) & image_of(&sb, &b, &perms[k]));
+        k += 1;
+    }
+    vassert!(any, "shuffle_two's outputs are not images of its inputs under one common permutation");
+}
+harness!(name=c19_perm_shuffle_2, prop=C19, mode=U, kind=normal, tier=quick, unwind=81, { perm1::<2, 2>(&P2) });
+harness!(name=c19_perm_shuffle2_2, prop=C19, mode=U, kind=normal, tier=quick, unwind=81, { perm2::<2, 2>(&P2) });
+harness!(name=c19_perm_shuffle_3, prop=C19, mode=U, kind=normal, tier=thorough, unwind=83, { perm1::<3, 6>(&P3) });
+harness!(name=c19_perm_shuffle2_3, prop=C19, mode=U, kind=normal, tier=thorough, unwind=83, { perm2::<3, 6>(&P3) });
 harness!(name=c19_shuffle2_mismatch, prop=C19, mode=U, kind=mustpanic, tier=quick, unwind=80, {
     let a: [f64; 2] = inp::arr(0);
     let b: [f64; 3] = inp::arr(100);
